@@ -237,7 +237,7 @@ func boxCases(full bool, r *lib.Rng, emit func(*Case)) {
 	}
 	// pairs of ignore paths: sampled
 	sets3b := setsUpTo(paths2, 2)
-	n := 100000
+	n := 60000
 	if full {
 		n = 1000000
 	}
@@ -249,7 +249,7 @@ func boxCases(full bool, r *lib.Rng, emit func(*Case)) {
 // randomCases: one random tree, perturbed at k places; both directions; ignore sets derived from it.
 func randomCases(full bool, r *lib.Rng, emit func(*Case)) {
 	g := &treeGen{r: r}
-	n := 100000
+	n := 70000
 	if full {
 		n = 1000000
 	}
@@ -276,7 +276,7 @@ func randomCases(full bool, r *lib.Rng, emit func(*Case)) {
 // then possibly perturbed.
 func matchCases(full bool, r *lib.Rng, emit func(*Case)) {
 	g := &treeGen{r: r}
-	n := 50000
+	n := 30000
 	if full {
 		n = 500000
 	}
